@@ -173,9 +173,10 @@ Record rall := mkRall { ra_buf : Z; ra_total : Z; ra_a : Z; ra_c : Z; ra_h : Z }
 
 (* sim::http_proxy *)
 Record proxy := mkProxy {
-  px_node : Z; px_writing : bool; px_cin : list Z; px_sout : list Z; px_close : bool; px_resolving : bool
+  px_node : Z; px_writing : bool; px_cin : list Z; px_sout : list Z; px_close : bool; px_resolving : bool;
+  px_phys : list Z; px_roff : Z     (* m_client_in_buffer as memory (what was ever written there) and the offset the pending read writes at *)
 }.
-#[export] Instance eta_proxy : Settable _ := settable! mkProxy <px_node; px_writing; px_cin; px_sout; px_close; px_resolving>.
+#[export] Instance eta_proxy : Settable _ := settable! mkProxy <px_node; px_writing; px_cin; px_sout; px_close; px_resolving; px_phys; px_roff>.
 
 (* sim::socks_server and its connections *)
 Record sconn := mkSconn {
